@@ -482,3 +482,55 @@ Qed.
 Lemma discard_inv c s x : Inv s ->
   Inv (m_discard c s x) /\ m_live (m_discard c s x) = l_remove x (m_live s).
 Proof. intros H. destruct (remove_inv c s x H) as (A & B & _). split; assumption. Qed.
+
+(* ---- positional reads ------------------------------------------------------------------ *)
+Lemma norm_index_spec len i j : norm_index len i = Some j ->
+  j < len /\ (if (i <? 0)%Z then (i + Z.of_nat len)%Z else i) = Z.of_nat j.
+Proof.
+  unfold norm_index.
+  destruct (0 <=? i)%Z eqn:A; destruct (i <? Z.of_nat len)%Z eqn:B; simpl;
+  destruct (i <? 0)%Z eqn:C; destruct (- Z.of_nat len <=? i)%Z eqn:D; simpl;
+  intros [= <-]; lia.
+Qed.
+
+Lemma real_index_ok s i j : Inv0 s -> norm_index (length (m_live s)) i = Some j ->
+  exists r x, m_real_index s i = Ok r /\ nth_error (items s) r = Some (Some x) /\
+              length (live_of (firstn r (items s))) = j.
+Proof.
+  intros H N. apply norm_index_spec in N. destruct N as [Lj N].
+  destruct (real_loop_spec (dead s) 0 (items s) j (inv_layout s H) Lj) as (r & x & R1 & R2 & R3).
+  exists r, x. split; [|split; assumption].
+  unfold m_real_index, norm_neg, m_len. rewrite (inv_len s H). rewrite N.
+  replace (Z.of_nat j <? 0)%Z with false by (symmetry; apply Z.ltb_ge; lia).
+  rewrite Nat2Z.id. f_equal. exact R1.
+Qed.
+
+Lemma getitem_ok s i j : Inv0 s -> norm_index (length (m_live s)) i = Some j ->
+  m_getitem s i = Ok (nth j (m_live s) 0).
+Proof.
+  intros H N. unfold m_getitem.
+  assert (N2 : norm_index (length (m_live s)) (norm_neg s i) = Some j).
+  { pose proof (norm_index_spec _ _ _ N) as [Lj E]. unfold norm_neg, m_len. rewrite (inv_len s H), E.
+    unfold norm_index. replace (0 <=? Z.of_nat j)%Z with true by (symmetry; apply Z.leb_le; lia).
+    replace (Z.of_nat j <? Z.of_nat (length (m_live s)))%Z with true by (symmetry; apply Z.ltb_lt; lia).
+    simpl. rewrite Nat2Z.id. reflexivity. }
+  destruct (real_index_ok s _ j H N2) as (r & x & R1 & R2 & R3).
+  rewrite R1, R2. f_equal. unfold m_live. rewrite (live_split _ _ _ R2). symmetry. apply nth_app_mid. exact R3.
+Qed.
+
+Lemma index_ok s x : Inv0 s ->
+  m_index s x = match l_index x (m_live s) with Some i => Ok i | None => Raise ValueError end.
+Proof.
+  intros H. unfold m_index. destruct (d_get (imap s) x) as [r|] eqn:G.
+  - assert (E : nth_error (items s) r = Some (Some x)) by (apply H; exact G).
+    unfold m_live. rewrite (live_split _ _ _ E). rewrite l_index_app.
+    + f_equal.
+      pose proof (apparent_loop_spec (dead s) 0 (items s) r x r (inv_layout s H) E) as A.
+      simpl in A. rewrite A by lia.
+      pose proof (live_of_length_le (firstn r (items s))) as L. rewrite firstn_length in L. lia.
+    + intros Hin. apply In_live_of in Hin. apply In_nth_error in Hin. destruct Hin as [j Hj].
+      apply nth_error_firstn_some in Hj. destruct Hj as [Lj Hj].
+      pose proof (map_ok_inj _ _ _ _ _ (inv_map s H) Hj E). lia.
+  - rewrite l_index_none; [reflexivity|]. intros Hin. apply (Inv0_keys s x H) in Hin.
+    unfold d_mem in Hin. rewrite G in Hin. discriminate.
+Qed.
